@@ -471,6 +471,8 @@ def rewrite_history(exe, rng, idx):
                 if rng.random() < 0.3:
                     a = (a[0], bytes(rng.choice(b"ab@local.xyz\x00") for _c in range(rng.choice([0, 1, 5, 84, 85, 126, 127, 128, 253]))))
                 attrs.append(a)
+        if len(attrs) % 2 == 0:
+            attrs += [(128, b"hi"), (200, b""), (255, b"\xff\x00")][: 1 + len(attrs) // 2]
         h.send("rewrite rw%d %s" % (rng.randrange(3), " ".join("%d:%s" % (t, R.hexs(v)) for t, v in attrs)))
         h.tag("forwarded")
     # a Vendor-Specific attribute with SEVERAL sub-attributes that a modifyVendorAttribute rule makes longer, filled so that each
@@ -690,6 +692,11 @@ def srvconn_history(exe, rng, idx):
             mine = [e for e in h.outstanding if e[0] == sv][:3]
             h.send("writer " + sv)
             evs = ["b"]
+            if (idx + step) % 3 == 0:
+                # … behind a message header with an impossible length field (and the sixteen octets that go with a header): the
+                # connection ends there, and none of what follows on it is a message
+                evs = ["b", "w:" + (bytes([2, step % 256, 0, [19, 0, 5, 8][step % 4]]) + bytes([0, 20] * 8)).hex()]
+                h.tag("burst-behind-bad-length")
             for ent in mine:
                 evs.append("w:" + h.make_reply(ent).hex())
                 h.outstanding.remove(ent)
@@ -776,6 +783,18 @@ def srvconn_history(exe, rng, idx):
                 h.tag("reconnected")
             if rng.random() < 0.6:
                 h.send("writer " + sv)
+    if idx % 2 == 0 and not h.s.dead:
+        # at the end of every second history: one more request, and the server's answer to it in a burst BEHIND a header with an
+        # impossible length field - which ends the connection: the answer is never taken off it
+        sv = names[idx // 2 % len(names)]
+        before = len(h.outstanding)
+        h.rq(0, h.make_request(0, code=1, user=b"bob@example.org", ident=250, extra=[], pwd=False))
+        if len(h.outstanding) > before and h.outstanding[-1][0] == sv:
+            ent = h.outstanding.pop()
+            h.send("writer " + sv)
+            bad = bytes([2, 7, 0, [19, 0, 5, 8][idx // 2 % 4]]) + bytes([0, 20] * 8)
+            h.send("srvconn %s b w:%s w:%s" % (sv, bad.hex(), h.make_reply(ent).hex()))
+            h.tag("burst-behind-bad-length")
     for k in range(h.ncl):
         h.send("pop %d" % k)
     return h.finish(kind="srvconn")
